@@ -1902,6 +1902,37 @@ func (mp *mapProto) noCallbackUnderLock() {
 func (mp *mapProto) effectCompleteness() {
 	c := mp.c
 	rule := mp.rule("effect-completeness")
+	// one operation per entry and path: a Map method that invokes the same entry operation twice on the same entry
+	// reports the second one's answer (LoadOrStore: 'loaded' for the value it has just stored itself)
+	for _, fi := range mp.funcs {
+		if !mp.isMapRecv(fi) {
+			continue
+		}
+		bad := ""
+		nOps := 0
+		for _, p := range mp.paths[fi] {
+			seen := map[string]bool{}
+			for i := range p.Events {
+				e := &p.Events[i]
+				if e.Kind != "call" || !strings.Contains(e.Name, "(*entry).") || len(e.Args) == 0 || e.Args[0] == nil {
+					continue
+				}
+				nOps++
+				k := e.Name + " " + e.Args[0].Key()
+				if seen[k] {
+					bad = e.String() + " is invoked a second time on the same entry on one path"
+				}
+				seen[k] = true
+			}
+		}
+		if nOps == 0 {
+			continue
+		}
+		o := c.R.Decide(bad == "", rule, fi.Name, "one-op-per-entry", c.pos(fi), "no entry operation is repeated on the same entry on a path", bad)
+		if bad != "" {
+			o.Breaks = "the method answers with the result of the repeated operation (loaded=true for its own store, a value deleted twice ...)"
+		}
+	}
 	// Store: every path stores
 	if fi := c.fn(rule, "sync2.(*Map).Store"); fi != nil {
 		ok, why := true, ""
